@@ -143,7 +143,11 @@ def run(ctx):
         n = ctx.n(260, 4000)
         for i in range(n):
             cfg = CFGS[i % len(CFGS)]
-            cases.append((cfg, EC.gen_ops(ctx.rng, cfg, ctx.n(22, 40), allow_setters=True)))
+            ops = EC.gen_ops(ctx.rng, cfg, ctx.n(22, 40), allow_setters=True)
+            if cfg[0] == "std" and i % 3 == 2:   # DPPerLayerOptimizer shares the protocol (its joint bound is fixed at construction: no clip writes)
+                cases.append((cfg, [o for o in ops if o[0] != "clip"], {"clipping": "per_layer"}))
+            else:
+                cases.append((cfg, ops))
         if ctx.thorough:
             alpha = [("fwdbwd", 1), ("step",), ("ozg",), ("mzg",), ("sig", 1), ("sig", 0)]
             for cfg in (CFGS[0], CFGS[1], CFGS[3]):
@@ -154,14 +158,15 @@ def run(ctx):
         if variant == "repaired":
             # the model only has the as-coded ghost behaviour: sequences through the repaired spot are judged by the oracle only
             keep = []
-            for cfg, ops in cases:
+            for case in cases:
+                cfg, ops = case[0], case[1]
                 if cfg[0] == "ghost" and EC.ghost_hazard(ops) is not None:
                     res = oracle_lines(cfg, ops, E.run_real(cfg, ops))
                     ctx.count("oracle-only:ghost-hazard")
                     if res:
                         ctx.property_failure(res[0], res[1], dict(res[2], failing_input={"cfg": cfg, "ops": ops}))
                 else:
-                    keep.append((cfg, ops))
+                    keep.append(case)
             cases = keep
 
         def on_case(cfg, ops, real, model, diff):
